@@ -11,7 +11,6 @@ use rust_dsymbols::fpgroups::stabilizer::stabilizer;
 use rust_dsymbols::fundamental_group::fundamental_group;
 use rust_dsymbols::generators::dset_generators::DSets;
 use rust_dsymbols::generators::dsym_generators::{DSyms, Geometries};
-use std::panic::{catch_unwind, resume_unwind, AssertUnwindSafe};
 use verif_harness::gen::words_upto;
 use verif_harness::{enc_list, enc_lists, Ctx, Rng};
 
@@ -68,20 +67,116 @@ fn in_range(n: usize, rels: &[FreeWord]) -> bool {
     rels.iter().all(|w| w.iter().all(|&g| g != 0 && g.unsigned_abs() <= n))
 }
 
+/// The elimination as it was before the `fix:` commit for F-C14-overflow (isize), with checked
+/// arithmetic: `None` = the isize computation overflowed.  Only used to tag the cases that exercise
+/// the repair (`isize-overflow` in the input histogram).
+mod old_isize {
+    type M = Vec<Vec<isize>>;
+    fn gcdx(a: isize, b: isize) -> Option<(isize, isize, isize, isize, isize)> {
+        let (mut a, mut a_next) = (a, b);
+        let (mut r, mut r_next) = (1isize, 0isize);
+        let (mut s, mut s_next) = (0isize, 1isize);
+        while a_next != 0 {
+            let q = a.checked_div(a_next)?;
+            (a, a_next) = (a_next, a.checked_sub(q.checked_mul(a_next)?)?);
+            (r, r_next) = (r_next, r.checked_sub(q.checked_mul(r_next)?)?);
+            (s, s_next) = (s_next, s.checked_sub(q.checked_mul(s_next)?)?);
+        }
+        Some((a, r, s, r_next, s_next))
+    }
+    fn lin(v: isize, a: isize, w: isize, b: isize) -> Option<isize> {
+        v.checked_mul(a)?.checked_add(w.checked_mul(b)?)
+    }
+    fn find_pivot(mat: &M, start: usize) -> Option<(usize, usize)> {
+        let (mut row, mut col, mut min) = (start, start, isize::MAX);
+        for r in start..mat.len() {
+            for c in start..mat[0].len() {
+                let v = mat[r][c].checked_abs()?;
+                if v != 0 && v < min {
+                    (row, col, min) = (r, c, v)
+                }
+            }
+        }
+        Some((row, col))
+    }
+    fn clear(mat: &mut M, i: usize, rows: bool) -> Option<usize> {
+        let (n, m) = (mat.len(), mat[0].len());
+        let mut count = 0;
+        for k in (i + 1)..(if rows { n } else { m }) {
+            let at = |mat: &M, a: usize, b: usize| if rows { mat[a][b] } else { mat[b][a] };
+            let (e, f) = (mat[i][i], at(mat, k, i));
+            let gauss = e != 0 && f.checked_rem(e)? == 0;
+            let (a, b, c, d) = if gauss {
+                (1, 0, f.checked_div(e)?.checked_neg()?, 1)
+            } else if f != 0 {
+                count += 1;
+                let g = gcdx(e, f)?;
+                (g.1, g.2, g.3, g.4)
+            } else {
+                continue;
+            };
+            for l in i..(if rows { m } else { n }) {
+                let (v, w) = (at(mat, i, l), at(mat, k, l));
+                let (x, y) = (if gauss { v } else { lin(v, a, w, b)? }, lin(v, c, w, d)?);
+                if rows {
+                    (mat[i][l], mat[k][l]) = (x, y)
+                } else {
+                    (mat[l][i], mat[l][k]) = (x, y)
+                }
+            }
+        }
+        Some(count)
+    }
+    pub fn run(nr_gens: usize, mut mat: M) -> Option<()> {
+        if nr_gens == 0 || mat.is_empty() {
+            return Some(());
+        }
+        let (n, m) = (mat.len(), nr_gens);
+        for i in 0..n.min(m) {
+            let (row, col) = find_pivot(&mat, i)?;
+            if mat[row][col] != 0 {
+                mat.swap(row, i);
+                for r in 0..n {
+                    mat[r].swap(col, i);
+                }
+                loop {
+                    clear(&mut mat, i, true)?;
+                    if clear(&mut mat, i, false)? == 0 {
+                        break;
+                    }
+                }
+            }
+            mat[i][i] = mat[i][i].checked_abs()?;
+        }
+        let k = n.min(m);
+        let mut f: Vec<isize> = (0..k).map(|i| mat[i][i]).collect();
+        for i in 0..k {
+            for j in (i + 1)..k {
+                let (a, b) = (f[i], f[j]);
+                if a != 0 && b.checked_rem(a)? != 0 {
+                    let g = gcdx(a, b)?.0;
+                    f[i] = g;
+                    f[j] = a.checked_div(g)?.checked_mul(b)?;
+                }
+            }
+        }
+        Some(())
+    }
+}
+
+fn isize_overflows(n: usize, rels: &[FreeWord]) -> bool {
+    in_range(n, rels)
+        && old_isize::run(n, rels.iter().map(|w| relator_as_vector::<isize>(n, w)).collect()).is_none()
+}
+
 fn ainv(ctx: &mut Ctx, op: &str, kind: &str, n: usize, rels: &[FreeWord], nt: bool) {
     if !ctx.peek_mine() {
         ctx.skip();
         return;
     }
-    // the call is made once, before the case is emitted, so that a panic on a well-formed
-    // presentation (the only reachable one is arithmetic overflow) shows up in the input histogram
-    let res = catch_unwind(AssertUnwindSafe(|| abelian_invariants(n, rels)));
-    let ovf = if res.is_err() && in_range(n, rels) { " overflow-panic" } else { "" };
+    let ovf = if isize_overflows(n, rels) { " isize-overflow" } else { "" };
     let tags = format!("{}{}{} gens={} rels={}", if nt { "nt " } else { "" }, kind, ovf, n.min(9), rels.len().min(9));
-    ctx.case(op, &tags, || format!("{} {}", n, enc_rels(rels)), move || match res {
-        Ok(v) => enc_list(&v),
-        Err(e) => resume_unwind(e),
-    });
+    ctx.case(op, &tags, || format!("{} {}", n, enc_rels(rels)), || enc_list(&abelian_invariants(n, rels)));
 }
 
 fn ainv_mat(ctx: &mut Ctx, rng: &mut Rng, kind: &str, n: usize, mat: &M) {
@@ -197,14 +292,7 @@ fn meta(ctx: &mut Ctx, rng: &mut Rng, kind: &str, n: usize, mat: &M) {
         ctx.skip();
         return;
     }
-    let res = catch_unwind(AssertUnwindSafe(|| {
-        let mut res: Vec<Vec<usize>> = vec![abelian_invariants(n, &rels)];
-        for (_, v) in &vs {
-            res.push(abelian_invariants(n, v));
-        }
-        res
-    }));
-    let ovf = if res.is_err() { " overflow-panic" } else { "" };
+    let ovf = if isize_overflows(n, &rels) || vs.iter().any(|(_, v)| isize_overflows(n, v)) { " isize-overflow" } else { "" };
     let tags = format!("nt meta {}{} gens={} rels={}", kind, ovf, n.min(9), rels.len().min(9));
     ctx.case(
         "meta",
@@ -216,9 +304,12 @@ fn meta(ctx: &mut Ctx, rng: &mut Rng, kind: &str, n: usize, mat: &M) {
             }
             s
         },
-        move || match res {
-            Ok(r) => enc_lists(&r),
-            Err(e) => resume_unwind(e),
+        || {
+            let mut res: Vec<Vec<usize>> = vec![abelian_invariants(n, &rels)];
+            for (_, v) in &vs {
+                res.push(abelian_invariants(n, v));
+            }
+            enc_lists(&res)
         },
     );
 }
@@ -467,7 +558,8 @@ fn main() {
     let mut ctx = Ctx::from_args();
     let th = ctx.thorough();
 
-    // (0) regression corpus: F-C14-overflow (isize overflow in diagonalize_in_place on small matrices)
+    // (0) regression corpus: F-C14-overflow (isize overflow in diagonalize_in_place on small matrices;
+    //     repaired by the fix: commit that computes over BigInt)
     let plain = |m: &[&[isize]]| -> Vec<FreeWord> {
         m.iter()
             .map(|row| {
@@ -481,10 +573,10 @@ fn main() {
             })
             .collect()
     };
-    // 5 generators, 5 relators, |x| ≤ 8: checked build panics at invariants.rs:81, exact answer [3776]
+    // 5 generators, 5 relators, |x| ≤ 8: the isize code panicked at invariants.rs:81, exact answer [3776]
     ainv(&mut ctx, "ainv", "regress", 5,
         &plain(&[&[-4, -5, -7, 5, -5], &[3, -7, 8, 8, -2], &[4, 8, 8, -6, 6], &[3, 0, 7, 0, -6], &[4, -7, -4, -4, 0]]), true);
-    // 6 generators, 8 relators, |x| ≤ 9: an unchecked build answers [3], exact answer [] (trivial group)
+    // 6 generators, 8 relators, |x| ≤ 9: an unchecked isize build answered [3], exact answer [] (trivial group)
     ainv(&mut ctx, "ainv", "regress", 6,
         &plain(&[&[7, 7, 3, -1, 4, 2], &[-2, 5, 8, 3, 2, 1], &[-8, 2, -2, 4, -3, 7], &[-3, -2, -2, -6, 7, -6],
                  &[3, -4, 7, 7, 5, -7], &[9, -9, 4, 3, -6, 0], &[4, -7, -7, -5, -9, 1], &[-4, -2, 6, 9, 5, 8]]), true);
@@ -598,8 +690,7 @@ fn main() {
     } else {
         dsym_presentations(&mut ctx, 5, 3);
     }
-    // (8) larger entries than the property asks for (words of up to ~2500 letters); if an isize
-    //     intermediate could leave ±2^62 the driver excludes the case (DESIGN §5.6)
+    // (8) larger entries than the property asks for (words of up to ~2500 letters)
     let mut rng = ctx.rng(8);
     for _ in 0..(if th { 3000 } else { 300 }) {
         let r = 2 + rng.below(3);
